@@ -292,7 +292,21 @@ func (e *env) do(a act) (string, error) {
 			}()
 			return "ok", nil
 		}
-		return resString(e.tracker.Track(ctx, p)), nil
+		// Track of a local or meta pin only enqueues: it must return at once. A bounded wait keeps a
+		// tracker that blocks here (e.g. one that issues a daemon call from Track) from hanging the run.
+		type tres struct{ err error }
+		ch := make(chan tres, 1)
+		e.remoteW.Add(1)
+		go func() {
+			defer e.remoteW.Done()
+			ch <- tres{e.tracker.Track(ctx, p)}
+		}()
+		select {
+		case r := <-ch:
+			return resString(r.err), nil
+		case <-time.After(3 * time.Second):
+			return "blocked", nil
+		}
 	case "Untrack":
 		if err := e.st.Rm(ctx, e.names.Cid(a.Cid)); err != nil {
 			return "", err
